@@ -147,6 +147,32 @@ static void judge_success(struct sim *s)
 	ex->open = false;
 }
 
+/* C17, the invariant behind the per-End-of-Data table: rtr_init admits in-range settings only and every mode except
+ * accept-any takes over in-range values only, so as long as the socket has never been in accept-any mode its three
+ * intervals lie within the RFC 8210 ranges at all times - also after exchanges that failed, however they failed */
+static void c17_range_invariant(struct sim *s, const char *where)
+{
+	static const uint32_t MINV[3] = {1, 1, 600}, MAXV[3] = {86400, 7200, 172800};
+	static const char *nm[3] = {"refresh", "retry", "expire"};
+	unsigned int got[3];
+	char key[128];
+
+	if (s->cfg.iv_mode == RTR_INTERVAL_MODE_ACCEPT_ANY)
+		s->ever_accept_any = true;
+	if (s->ever_accept_any || !s->sock)
+		return;
+	got[0] = s->sock->refresh_interval;
+	got[1] = s->sock->retry_interval;
+	got[2] = s->sock->expire_interval;
+	CNT("c17/range_invariant_checks");
+	for (int i = 0; i < 3; i++)
+		if (got[i] < MINV[i] || got[i] > MAXV[i]) {
+			snprintf(key, sizeof(key), "C17:interval-out-of-range:%s:%s:mode-%d", nm[i], where, s->cfg.iv_mode);
+			viol("C17", key, "%s interval is %u (%s, interval mode %d, never accept-any): outside %u..%u", nm[i], got[i], where, s->cfg.iv_mode, MINV[i],
+			     MAXV[i]);
+		}
+}
+
 void sim_judge_failure_if_open(struct sim *s, const char *where, int next_qtype, uint16_t next_sess, uint32_t next_serial)
 {
 	struct exchange *ex = &s->ex;
@@ -158,6 +184,7 @@ void sim_judge_failure_if_open(struct sim *s, const char *where, int next_qtype,
 	ex->open = false;
 	if (s->monitors_off)
 		return;
+	c17_range_invariant(s, "after-a-failed-exchange");
 	sim_snapshot(s, s->sock, &A);
 	CNT("c03/exchanges_judged_failure");
 	cntf(1, "c03/failure_judged_at/%s", where);
@@ -632,6 +659,7 @@ void sim_mon_on_closed_by_peer(struct sim *s)
 void sim_mon_on_open(struct sim *s)
 {
 	s->close_without_answer_seen = false;
+	c17_range_invariant(s, "at-open");
 	if (s->mv_fast_reconnect_due) {
 		CNT("c13/fast_reconnect_checks");
 		if (VNOW != s->t_fast_reconnect)
